@@ -126,6 +126,10 @@ static bool edn_value_equal_internal(const edn_value_t* a, const edn_value_t* b,
             const char* digits_a = edn_bigint_get(a, &len_a, &neg_a, &radix_a);
             const char* digits_b = edn_bigint_get(b, &len_b, &neg_b, &radix_b);
 
+            /* the cleaned digits are unavailable when the arena is out of memory */
+            if (digits_a == NULL || digits_b == NULL) {
+                return false;
+            }
             if (len_a != len_b) {
                 return false;
             }
@@ -148,6 +152,10 @@ static bool edn_value_equal_internal(const edn_value_t* a, const edn_value_t* b,
             const char* decimal_a = edn_bigdec_get(a, &len_a, &neg_a);
             const char* decimal_b = edn_bigdec_get(b, &len_b, &neg_b);
 
+            /* the cleaned digits are unavailable when the arena is out of memory */
+            if (decimal_a == NULL || decimal_b == NULL) {
+                return false;
+            }
             if (len_a != len_b) {
                 return false;
             }
